@@ -285,6 +285,12 @@ func Harness() vh.Harness {
 			if failedPipe > 0 {
 				cls += "+pipeline-fault"
 			}
+			for _, t := range spec.Tasks {
+				if t.Status == sched.SAllocated || t.Status == sched.SBinding || t.Status == sched.SPipelined {
+					cls += "+after-allocate"
+					break
+				}
+			}
 			refusedHit := 0
 			for _, t := range spec.Refuse {
 				for _, e := range w.Trace {
